@@ -69,7 +69,7 @@ Qed.
 Lemma on_timer_late tx now s :
   preserving tx -> wf tx s -> late (on_timer tx now s) = true -> late s = true.
 Proof.
-  intros Hp Hw H. destruct s; cbn [on_timer] in H; try exact H; try reflexivity.
+  intros Hp Hw H. unfold on_timer in H. destruct s; cbn [on_timer_gen] in H; try exact H; try reflexivity.
   - destruct tmr; [|exact H]. destruct tx; cbn in Hp; try contradiction; cbn in Hw; contradiction.
   - destruct tx; try exact H. destruct (slice_ok _ _ _); discriminate.
   - unfold slicer_next in H. destruct rest as [|lo [|hi rest']]; try discriminate.
@@ -79,7 +79,7 @@ Qed.
 
 Lemma on_timer_not_exited tx now s : s <> Exited -> on_timer tx now s <> Exited.
 Proof.
-  intros Hs. destruct s; cbn [on_timer]; try discriminate; try exact Hs.
+  intros Hs. unfold on_timer. destruct s; cbn [on_timer_gen]; try discriminate; try exact Hs.
   - destruct tmr; [discriminate|exact Hs].
   - destruct tx; try discriminate. destruct (slice_ok _ _ _); discriminate.
   - unfold slicer_next. destruct rest as [|lo [|hi rest']]; try discriminate.
